@@ -39,6 +39,17 @@ func (r recSeq) GetNextBatch(ctx context.Context, req coresequencer.GetNextBatch
 		}
 		r.w.released = append(r.w.released, b)
 	}
+	// cancel=during-getnext: the stop request lands while the sequencer call is in flight: the context of the production
+	// step is cancelled before GetNextBatch returns its (already destructive) answer; aware = the execution layer honours
+	// the cancelled context (ExecuteTxs returns ctx.Err()), otherwise it ignores it
+	if r.w.cancelStep != nil {
+		r.w.cancelStep()
+		r.w.cancelStep = nil
+		r.w.cancelled = true
+		if r.w.cancelAware {
+			r.w.exec.Fail = true
+		}
+	}
 	// the sequencing layer's clock: the real single sequencer stamps time.Now(); `same` = a coarse clock that still shows
 	// the time of the previous block, `back` = a clock that stepped backwards (1 ns before the previous block)
 	if err == nil && res != nil && r.w.env != nil {
@@ -105,8 +116,11 @@ type World struct {
 	copiesInOne  map[string]int  // copies of it in the (last) hand-off that contained it
 	dupExcused   map[string]bool // a crash fell between the queue write of its hand-off and its seen-mark: may be handed over again
 	fromAtCrash  int
-	acked        [][]byte          // what SubmitBatchTxs acknowledged during the current reap
-	refused      bool              // SubmitBatchTxs answered the current reap with an error
+	acked        [][]byte           // what SubmitBatchTxs acknowledged during the current reap
+	refused      bool               // SubmitBatchTxs answered the current reap with an error
+	cancelStep   context.CancelFunc // armed: cancel the production step\'s context inside GetNextBatch
+	cancelAware  bool               // … and the execution layer honours the cancelled context
+	cancelled    bool
 	clock        string            // the sequencing layer's clock during the current production step ("" = real)
 	armed        string            // datastore fault armed for the next operation: qput | seen | qdel | blk
 	seenFail     int               // next n Puts of the reaper's seen-store fail
@@ -341,8 +355,16 @@ func Run(c *hx.Ctx) {
 			if w.clock != "same" && w.clock != "back" {
 				w.clock = ""
 			}
-			if fail || w.clock != "" {
+			cancelMode := o.Str("cancel") == "during-getnext" && !fail && w.clock == ""
+			if fail || w.clock != "" || cancelMode {
 				armed = "" // a datastore fault applies to a plain step only
+			}
+			ctx := context.Background()
+			w.cancelled = false
+			var cancelCtx context.CancelFunc
+			if cancelMode {
+				ctx, cancelCtx = context.WithCancel(ctx)
+				w.cancelStep, w.cancelAware = cancelCtx, o.Str("exec") == "ctx"
 			}
 			switch armed {
 			case "qdel":
@@ -358,16 +380,23 @@ func Run(c *hx.Ctx) {
 				stdout := os.Stdout
 				if null, oerr := os.OpenFile(os.DevNull, os.O_WRONLY, 0); oerr == nil {
 					os.Stdout = null
-					err = e.M.VerifPublishBlock(context.Background())
+					err = e.M.VerifPublishBlock(ctx)
 					os.Stdout = stdout
 					null.Close()
 				} else {
-					err = e.M.VerifPublishBlock(context.Background())
+					err = e.M.VerifPublishBlock(ctx)
 				}
 			} else {
-				err = e.M.VerifPublishBlock(context.Background())
+				err = e.M.VerifPublishBlock(ctx)
 			}
 			w.exec.Fail = false
+			w.cancelStep = nil
+			if cancelCtx != nil {
+				cancelCtx()
+			}
+			if w.cancelled {
+				c.Hit("produce-cancelled-in-getnext")
+			}
 			cls := "nil"
 			if err != nil {
 				cls = errClass(err)
